@@ -411,7 +411,8 @@ def sumproduct(*args):
         for x in flatten(arg)) for arg in args))
 
     # return the sum product
-    return np.sum(np.prod(values, axis=0))
+    # (multiplied as doubles, like excel does: fixed width integers wrap)
+    return np.sum(np.prod(values, axis=0, dtype=float))
 
 
 @excel_math_func
